@@ -965,7 +965,10 @@ pub struct MlShapes {
     pub max: u64,
 }
 
-const ML_CONTAINERS: [(&str, &str, &str, &str); 5] = [
+const ML_CONTAINERS: [(&str, &str, &str, &str); 7] = [
+    // the statement BEGINS with a literal
+    ("", ".Concat(", ", ", ");"),
+    ("", " + ", ".Split([','], 2, 3) + ", ";"),
     ("Bar(", ", ", ", ", ");"),
     ("X := ", " + ", " + ", ";"),
     ("Bar(Baz(", "), ", ", ", ", 3);"),
